@@ -388,7 +388,8 @@ func c06SSHCase(c *Ctx, op, tag string, data []byte, its []sshItem, crlf bool, t
 			blobData = append(append(append([]byte{}, blobData...), '\n'), it.line...)
 		}
 	}
-	c.Emit(op+":"+tag, SL{S(name), SB(data), oracle, cands, layout, alone, c06Blobs(blobData)}, SL{pobs, insp, I(1)})
+	blobs := c06Blobs(blobData)
+	c.Emit(op+":"+tag+c06KTagRows(blobs), SL{S(name), SB(data), oracle, cands, layout, alone, blobs}, SL{pobs, insp, I(1)})
 }
 
 // c06LineCase: one line through the library's line parser (op sshline).  expectHosts != nil: the line is a
@@ -404,7 +405,8 @@ func c06LineCase(c *Ctx, tag string, hosts bool, line []byte, wellFormed bool, e
 		alone = SL{c06_infoObs(func() (file.Info, error) { return file.SSHPublicKey(file.Info{}, []byte(key+"\n")) })}
 	}
 	obs := c06_attrsObs(func() ([]file.Attribute, error) { return lineFn(line) })
-	c.Emit("sshline:"+tag, SL{Bool(hosts), SB(line), c06Blobs(line), expect, alone}, obs)
+	blobs := c06Blobs(line)
+	c.Emit("sshline:"+tag+c06KTagRows(blobs), SL{Bool(hosts), SB(line), blobs, expect, alone}, obs)
 }
 
 func c06SSHLayoutCase(c *Ctx, op, tag string, its []sshItem, crlf bool, trail int) {
